@@ -599,10 +599,78 @@ func bigMapMonitor(c *Ctx) {
 		}
 	}
 	c.AddExtraCount("big_map_keys_compared_in_go", int64(n))
+	// giant keys and values (up to 16 MiB + 5 and, thorough, 64 MiB): lengths beyond any narrow size field
+	lens := []int{65535, 65536, 65537, 1 << 20, 1<<24 - 1, 1 << 24, 1<<24 + 5}
+	if c.Thorough() {
+		lens = append(lens, 1<<26+1)
+	}
+	var gk []string
+	var gv []int
+	gref := map[string]int{}
+	for i, l := range lens {
+		k := string(PatBytes(60+i, i, l))
+		gk, gv = append(gk, k), append(gv, i+1)
+		gref[k] = i + 1
+	}
+	gk, gv = append(gk, "small", ""), append(gv, 100, 101)
+	gref["small"], gref[""] = 100, 101
+	gm := strmap.New[int]()
+	bad := ""
+	func() {
+		defer func() {
+			if p := recover(); p != nil {
+				bad = fmt.Sprint("panic: ", p)
+			}
+		}()
+		if err := gm.LoadFromSlice(gk, gv); err != nil || gm.Len() != len(gref) {
+			bad = "load failed or wrong Len"
+			return
+		}
+		for k, v := range gref {
+			if got, ok := gm.Get(k); !ok || got != v {
+				bad = fmt.Sprintf("key of %d bytes not found", len(k))
+				return
+			}
+			if len(k) > 10 {
+				if _, ok := gm.Get(k[:len(k)-1]); ok {
+					bad = fmt.Sprintf("prefix of a key of %d bytes found", len(k))
+					return
+				}
+			}
+		}
+		seen := map[string]bool{}
+		for i := 0; i < gm.Len(); i++ {
+			k, v := gm.Item(i)
+			if gref[k] != v || seen[k] {
+				bad = fmt.Sprintf("Item(%d) returns a key of %d bytes that was not loaded (or twice)", i, len(k))
+				return
+			}
+			seen[k] = true
+		}
+		s2 := strmap.NewStr2Str()
+		vals := make([]string, len(gk))
+		for i := range gk {
+			vals[i] = gk[len(gk)-1-i]
+		}
+		if err := s2.LoadFromSlice(gk, vals); err != nil {
+			bad = "Str2Str load of giant keys failed"
+			return
+		}
+		for i, k := range gk {
+			if v, ok := s2.Get(k); !ok || v != vals[i] {
+				bad = fmt.Sprintf("Str2Str: key of %d bytes lost or wrong value", len(k))
+				return
+			}
+		}
+	}()
+	if bad != "" {
+		c.GoViolation("strmap-big", "strmap/giant-keys", map[string]int{"n": len(gk)}, bad)
+	}
+	c.AddExtraCount("giant_keys_compared_in_go", int64(len(gk)))
 }
 
 func checkC07(c *Ctx) {
-	c.rule = "MC: every subset of a key universe with the empty key and prefixes ({\"\",a,ab[,b]}) x every assignment of keys to slots (the hash is an arbitrary function chosen at load) x every slot-sorted item order x histories of 2 loads/failed loads/never loaded: Get = Go-map semantics for every probe and every slot the probe may hash to. TRACE: fresh instances of StrMap[int], StrMap[struct], Str2Str per size class (random maphash seeds => many chain shapes), reload histories (grow, shrink, failed load), never-loaded and empty instances, instances made by the four constructors and a zero-value Str2Str, adversarial collision chains of 9..40 keys in one slot (keys chosen against the instance's seed through the slot hook), maps up to 5000 keys; every load must be an enabled Load action on the REAL table read through the hook (slot-sorted, first-index table, prime slot count, Item enumeration), every Get must agree with MapAbs and with ImplGet on the real table. Maps of 10^5 keys are compared with a Go map in Go (monitor)."
+	c.rule = "MC: every subset of a key universe with the empty key and prefixes ({\"\",a,ab[,b]}) x every assignment of keys to slots (the hash is an arbitrary function chosen at load) x every slot-sorted item order x histories of 2 loads/failed loads/never loaded: Get = Go-map semantics for every probe and every slot the probe may hash to. TRACE: fresh instances of StrMap[int], StrMap[struct], Str2Str per size class (random maphash seeds => many chain shapes), reload histories (grow, shrink, failed load), never-loaded and empty instances, instances made by the four constructors and a zero-value Str2Str, adversarial collision chains of 9..40 keys in one slot (keys chosen against the instance's seed through the slot hook), maps up to 5000 keys; every load must be an enabled Load action on the REAL table read through the hook (slot-sorted, first-index table, prime slot count, Item enumeration), every Get must agree with MapAbs and with ImplGet on the real table. Maps of 10^5 keys and maps with giant keys / values (2^16 +-1, 2^20, 2^24 +-1 bytes) are compared with a Go map in Go (monitor)."
 	if c.Thorough() {
 		c.MC("MC_StrMap.tla", "MC_StrMap_thorough.cfg", 12)
 	} else {
@@ -615,3 +683,7 @@ func checkC07(c *Ctx) {
 }
 
 func init() { checks["C07"] = checkC07 }
+
+func init() {
+	goReplays["strmap-big"] = func(c *Ctx, raw json.RawMessage) { bigMapMonitor(c) }
+}
